@@ -43,6 +43,13 @@ def check_outputs(lowered, dsk, keys):
             raise S.GraphDefect("missing_output", S.keystr(k))
 
 
+def _same_key(a, b):
+    try:
+        return a == b
+    except Exception:
+        return a is b
+
+
 def _is_fused_task(task):
     return istask(task) and getattr(task[0], "__name__", "") == "_execute_task" and len(task) >= 3 and isinstance(task[1], dict)
 
@@ -59,6 +66,17 @@ def check_fused_subgraphs(dsk, stems):
         if name not in sub:
             raise S.GraphDefect("fused_output_missing", "%s lacks %r" % (S.keystr(k), name))
         placeholders = {"_%d" % i for i in range(len(t) - 3)}
+        # every external input key must be bound to its own positional placeholder, and to nothing else: otherwise two
+        # different inputs are the same thing inside the sub-graph (one key, two meanings)
+        for i, dep_key in enumerate(t[3:]):
+            try:
+                bound = sub.get(dep_key)
+            except TypeError:
+                continue
+            ok_names = {"_%d" % j for j, other in enumerate(t[3:]) if _same_key(other, dep_key)}
+            if bound not in ok_names:
+                raise S.GraphDefect("fused_bad_placeholder", "%s: input #%d %s is bound to %r inside the sub-graph (expected '_%d')" % (
+                    S.keystr(k), i, S.keystr(dep_key), bound, i))
         sub_stems = {S.key_stem(x) for x in sub} | set(stems)
         sub_stems.discard(None)
         full = dict(sub)
